@@ -8,6 +8,7 @@ def src_commits():
     return []
 
 A = "vsched"
+B = "venum"
 CLAIMED = {
  "C14": dict(engine=A, design="§3 C14",
    technique="stateless model checking of the implementation: exhaustive delay-bounded DFS over schedules and environment events of closed lifecycle scenarios (controlled scheduler, instrumented real code)",
@@ -61,6 +62,18 @@ CLAIMED = {
    technique="bounded-exhaustive enumeration of server reply streams with fault enumeration (server death at every byte offset, two ways) on the real Connection under the controlled scheduler, against an independent reply classifier",
    text="Reply streams of <=2 frames over 19 frame kinds are served by a scripted raw server that closes or resets after every byte offset, and the complete stream is delivered under every single cut; the client uses Send+receive (one more receive than frames), Call and Upgrade. Every receive must return exactly the next complete frame's parameters and continues flag, an error for frames that are not JSON objects of the reply's shape (null = empty reply), the remote error (typed for org.varlink.service errors), io.ErrUnexpectedEOF when the stream ends before the NUL, and never success for an incomplete frame; all 16 flag words: forbidden combinations write nothing, others put exactly the requested flags on the wire.",
    note="After a reset an earlier complete frame may be lost (any error accepted); {\"error\":\"\"} is unspecified; ~48k (stream, offset, mode, api) cases in quick."),
+ "C05": dict(engine=B, design="§3 C05",
+   technique="bounded-exhaustive enumeration of syntax trees x layouts (every gap x every filler), each rendered text parsed by the real parser and compared node by node with the generating tree",
+   text="~1,750 descriptions (thorough ~10,000): every type expression of depth <=2 (thorough 3) over all 11 constructors placed as alias body, method input field, method output field, error parameter and alias-struct field; all member-list shapes of <=3 members; 5 interface-name forms. Each is rendered in the default layout, with every single gap (thorough: gap pairs) set to every other filler the grammar allows there (empty, space, tab, CRLF, LF, blank line, trailing comment, empty comment, comment without space, two comment lines), with 5 end-of-input forms (no final newline, comment ending at end of input), and with comment blocks above the interface and each member (7 shapes x 3 indents x LF/CRLF). Oracle: accepted; name, Members in source order and consistent with Aliases/Methods/Errors (same pointers, same order), every type node, field names, enum members, Description verbatim, documentation = the block's lines without '#' and one optional space.",
+   note="Strict grammar S is the check's reading of the varlink grammar (DESIGN.md); documentation is judged only for blocks on their own lines directly above the member."),
+ "C06": dict(engine=B, design="§3 C06",
+   technique="bounded-exhaustive enumeration of token sequences and single-token edit neighbourhoods, judged by a reprint round-trip, tree invariants and an independent liberal recogniser",
+   text="All sequences of <=5 tokens over a 23-token alphabet (keywords, names, punctuation, prefix operators, [int], newline, comments, a non-ASCII byte) after 'interface a.b', joined by a space and by nothing (12.9 M texts; thorough adds length 6 over 12 tokens), plus every single-token deletion, substitution, insertion, transposition and duplication of every default-layout description of the tree set, duplicated members and trailing garbage. Whenever the parser accepts: re-printing its tree must reproduce the input up to whitespace and comments, no optional directly wraps an optional, parenthesised lists are all typed or all bare, member names unique, >=1 method, and a separately written liberal recogniser must accept too; an error never comes with a tree.",
+   note="The liberal grammar L (gaps anywhere, any alphanumeric names) is the check's statement of 'the most liberal reading'; texts in L but outside the strict grammar are unspecified for acceptance."),
+ "C09": dict(engine=B, design="§3 C09",
+   technique="bounded-exhaustive enumeration of truncations, short byte strings behind grammar prefixes, token sequences and size/depth bombs, each parsed under recover with a progress watchdog",
+   text="Every byte-prefix of every description of the tree set in 3 layouts (incl. comments at every gap and input ending inside a comment); every byte string of length <=5 (thorough <=6) over 13 bytes (all punctuation terminals, '#', LF, space, letters, NUL, 0xff) behind 11 prefixes that put the parser in each of its states; token sequences <=3; 17 inputs at the 64 KiB bound (32k-deep '[]', 16k-deep nested structs, 64 KiB comment, 64 KiB of '#', NUL and 0xff runs). Oracle: idl.New returns exactly one of tree/error, never panics; no input stalls for 120 s.",
+   note="Not all byte strings up to 64 KiB: an alphabet and all truncations of a bounded-exhaustive positive set; coverage-guided fuzzing is a different technique family and is not used."),
 }
 
 NOT_YET = "check not built yet (work in progress; see DESIGN.md for the plan)"
@@ -97,6 +110,8 @@ def main():
         "engines": [
             {"name": "vsched", "path": "/verif/vx/vsched", "serves_properties": [p for p in PROPS if CLAIMED.get(p, {}).get("engine") == A],
              "kind_free_text": "hand-written controlled scheduler + stateless delay-bounded DFS explorer + vector-clock race monitor, bound to the code by a go build -overlay produced by /verif/vx/cmd/vinstr"},
+            {"name": "venum", "path": "/verif/vx/hb", "serves_properties": [p for p in PROPS if CLAIMED.get(p, {}).get("engine") == B],
+             "kind_free_text": "bounded-exhaustive enumerators (trees x layouts, token sequences, edit neighbourhoods, configuration products) with reference models, run against the uninstrumented working tree"},
         ],
         "checks": checks,
         "not_applicable": na,
